@@ -155,6 +155,10 @@ func loadCorpus() {
 		qcase{text: "match p = (s:User)-[:MemberOf*0..]->(:Group)-[:AdminTo]->(d:Computer) where d.name = 'x' with p, d match (d)-[:AdminTo]->(c:Computer) return p, c"},
 		qcase{text: "match (a)-[:MemberOf*1..]->(g:Group) where g.name = 'x' with a match (a)-[:AdminTo]->(c) return c"},
 		qcase{text: "match (n:User)-[:MemberOf]->(g:Group) where g.objectid = 'S-1' with n, g match (g)<-[:MemberOf*1..]-(m) with m, n match (m)-[:AdminTo]->(c:Computer) where c.name = 'y' return n, c"},
+		// string literals with escape sequences (decoded during translation), short and long, in several places
+		qcase{text: `match (n) where n.name = 'it\'s a \\\\ path\nsecond\tline' return n`},
+		qcase{text: `match (n {name: 'a\\b', other: "q\"uoted\r"}) where n.path starts with 'C:\\Users\\' return n.name + '\\' + 'x'`},
+		qcase{text: "match (n) where n.description = '" + strings.Repeat(`abc\\def\'ghi\n`, 40) + "' return n"},
 	)
 	corpus = append(corpus, rich...)
 	// builder-constructed ASTs (query/v2): values travel inside named parameter nodes; the caller also passes
